@@ -185,10 +185,15 @@ impl ElementMap for TransformerContext {
             let translate_y = el.get_attr("y");
             if translate_x.is_some() || translate_y.is_some() {
                 if let Some(ref mut bbox) = &mut el_bbox {
-                    el_bbox = Some(bbox.translated(
-                        translate_x.map(|tx| strp(&tx)).unwrap_or(Ok(0.))?,
-                        translate_y.map(|ty| strp(&ty)).unwrap_or(Ok(0.))?,
-                    ));
+                    // x / y given as a length with unit or a percentage ("12px", "50%")
+                    // can't be computed with: such an element has no bounding box.
+                    el_bbox = match (
+                        translate_x.map(|tx| strp(&tx)).unwrap_or(Ok(0.)),
+                        translate_y.map(|ty| strp(&ty)).unwrap_or(Ok(0.)),
+                    ) {
+                        (Ok(tx), Ok(ty)) => Some(bbox.translated(tx, ty)),
+                        _ => None,
+                    };
                 }
             }
         }
